@@ -1047,10 +1047,10 @@ register_QuatArray()
 
     class_<FixedArray<QuatT> > quatArray_class = FixedArray<QuatT>::register_("Fixed length array of IMATH_NAMESPACE::Quat");
     quatArray_class
-        .add_property("r",&QuatArray_get<T,0>)
-        .add_property("x",&QuatArray_get<T,1>)
-        .add_property("y",&QuatArray_get<T,2>)
-        .add_property("z",&QuatArray_get<T,3>)
+        .add_property("r",boost::python::make_function(&QuatArray_get<T,0>,boost::python::with_custodian_and_ward_postcall<0,1>()))
+        .add_property("x",boost::python::make_function(&QuatArray_get<T,1>,boost::python::with_custodian_and_ward_postcall<0,1>()))
+        .add_property("y",boost::python::make_function(&QuatArray_get<T,2>,boost::python::with_custodian_and_ward_postcall<0,1>()))
+        .add_property("z",boost::python::make_function(&QuatArray_get<T,3>,boost::python::with_custodian_and_ward_postcall<0,1>()))
         .def("setRotation", &QuatArray_setRotation<T>,
              "set rotation angles for each quat",
              (args("from", "to")))
